@@ -18,6 +18,47 @@ def run(rep, tier):
     rn = common.tlc("BinFhe/MC_Select", cfg="BinFhe/MC_Select_neg", workers=8, wd=wd, timeout=1800)
     if rn.ok or rn.invariant != "AllOK":
         raise common.ToolError("MC_Select negative control (reversed merge gate) was not refuted:\n" + rn.out[-1500:])
+    # circuit bootstrapping cell by cell (Cbt.tla): both modes, every message of the domain, gaps up to the negacyclic limit
+    import json, os
+    g = common.tlc("BinFhe/Gen_Cbt", cfg="BinFhe/Gen_Cbt_" + tier, workers=2, wd=wd, timeout=900)
+    common.tlc_must(g, "Gen_Cbt")
+    cdesc = [json.loads(json.loads(x)) for x in g.printed("DESC")]
+    if not g.ok or len(cdesc) != g.distinct - 1 or not cdesc:
+        raise common.ToolError("Gen_Cbt did not complete:\n" + g.out[-1500:])
+    cdesc.sort(key=lambda x: json.dumps(x, sort_keys=True))
+    for i, x in enumerate(cdesc):
+        x["id"] = i + 1
+    rep.add_tlc(g, "gen:cbt")
+    common.build_harness()
+    dp, ep = os.path.join(wd, "cbt.descs.ndjson"), os.path.join(wd, "cbt.events.ndjson")
+    common.write_ndjson(dp, cdesc)
+    p = common.harness(["cbt", dp, ep], timeout=7200)
+    if p.returncode != 0:
+        raise common.ToolError("harness cbt failed rc=%d\n%s" % (p.returncode, p.stdout[-3000:]))
+    cev = common.read_ndjson(ep)
+    t = common.tlc("BinFhe/CbtTrace", env={"TRACE": ep}, workers=1, wd=wd, timeout=3600)
+    common.tlc_must(t, "CbtTrace")
+    v = t.printed("VERDICT")
+    if not t.ok or not v or t.distinct != len(cev) + 1:
+        raise common.ToolError("CbtTrace did not complete:\n" + t.out[-3000:])
+    rep.states += t.distinct
+    rep.transitions += t.generated
+    rep.traces += len(cev)
+    seen = set()
+    ncb = 0
+    for k, kind in json.loads(json.loads(v[0].split(", ", 1)[1])):
+        e = cev[k - 1]
+        ncb += 1
+        full = int(e["mode"] == "exponent" and e["kpt"] + e["gap"] == 8)
+        key = "cbt:%s:%s full=%d%s" % (kind, e["mode"], full, (" panic=" + e["panic"][:60]) if e["panic"] else "")
+        if key in seen:
+            continue
+        seen.add(key)
+        rep.violation(key, "circuit bootstrapping rejected by CbtTrace: %s data=%s kpt=%s gap=%s ext=%s rows=%s be=%s" % (e["mode"], e["data"], e["kpt"], e["gap"], e["ext"], e["rows"], e["be"]),
+                      {"event": e})
+    rep.extra["circuit_bootstrapping"] = {"behaviours": len(cev), "rejected": ncb}
+    rep.evaluations += len(cev)
+    rep.distinct += len(cev)
     rows = fhepipe.gen(rep, wd, "c15_" + tier)
     events, bad = fhepipe.run(rep, wd, rows, "c15", shards=8 if tier == "quick" else 14)
     nb = fhepipe.report(rep, events, bad, {"sem"}, "c15")
@@ -28,7 +69,7 @@ def run(rep, tier):
     rep.extra["behaviours"] = kinds
     rep.evaluations += sum(len(e["outs"]) for e in events)
     rep.distinct += len(events)
-    rep.rule = ("%d behaviours enumerated by TLC (Gen_Fhe: 10 word operations x boundary dictionary pairs {0, 1, 2^31, 2^32-1, alternating, single bits, shift amounts 31..63, ...}; bit surgery on packed words (sext, zero_byte, splice_u8, splice_u16, get_bit) decided against the bit-level definition; oblivious data movement under an encrypted index (blind selection over sparse maps, blind retrieval forward / reverse, the stateful retriever over add / flush histories, cswap, blind rotation) decided against Select.tla, whose code-shaped algorithms MC_Select checks against the user-level statements for every map / length / selector in scope; partial "
+    rep.rule = ("%d behaviours enumerated by TLC (Gen_Fhe: 10 word operations x boundary dictionary pairs {0, 1, 2^31, 2^32-1, alternating, single bits, shift amounts 31..63, ...}; bit surgery on packed words (sext, zero_byte, splice_u8, splice_u16, get_bit) decided against the bit-level definition; oblivious data movement under an encrypted index (blind selection over sparse maps, blind retrieval forward / reverse, the stateful retriever over add / flush histories, cswap, blind rotation) decided against Select.tla, whose code-shaped algorithms MC_Select checks against the user-level statements for every map / length / selector in scope; circuit bootstrapping cell by cell (Cbt.tla: every cell of the GGSW against every candidate message of the domain, constant and exponent mode); partial "
                 "preparation over (start, count); chains op -> re-prepare (circuit bootstrapping) -> op; FFT64Ref and FFT64Avx) executed on the library's own key material (N=256, rank 2, "
                 "block-binary LWE key); the decrypted words are decided bit for bit by TLC against WordOps.tla (the specification C13 proves the compiled circuits against); distinct = behaviours"
                 % len(events))
@@ -36,4 +77,5 @@ def run(rep, tier):
     log("[C15] %d behaviours, %d rejected" % (len(events), nb))
     rep.assumptions += ["one parameter set (the crate's public test context); u32 only",
                         "blind selection / retrieval / rotation are judged on the decoded plaintext (coefficient values at the plaintext scale), not limb by limb",
-                        "circuit bootstrapping is observed through the prepared word's behaviour (OR with zero), not cell by cell"]
+                        "circuit bootstrapping cell by cell uses the library's noise helper (phase minus the candidate message, largest coefficient) on its own key set (N=256, n_lwe=77, the crate's test parameters); "
+                        "shapes with fewer than 16 blind-rotation positions per table entry are not generated (their failure probability is a parameter choice)"]
